@@ -213,6 +213,12 @@ theorem openTable_shape_none (p : Params) (hp : PWF p) (hash : Bytes → Nat) (h
 def filterOf (off : Nat) (f : Bytes) : Filter :=
   { blockOff := off, bits := unle (slice f 0 8), k := unle (slice f 8 8), data := f.drop 32 }
 
+/-- LoadBloomFilter's acceptance test on a serialised filter: the 32-byte header describes the data that follows
+    (a record failing it is skipped by `loadFilters`). -/
+def filterOk (f : Bytes) : Bool :=
+  decide (f.length ≥ 32 ∧ unle (slice f 0 8) ≠ 0 ∧ unle (slice f 8 8) ≠ 0 ∧ unle (slice f 8 8) ≤ unle (slice f 0 8) ∧
+          f.length - 32 = unle (slice f 0 8) / 8 + (unle (slice f 0 8) % 8 + 7) / 8)
+
 def bloomRec (r : Nat × Bytes) : Bytes := le 8 r.1 ++ le 4 r.2.length ++ r.2
 
 def bloomRecs (recs : List (Nat × Bytes)) : Bytes := recs.flatMap bloomRec
@@ -232,7 +238,7 @@ theorem loadFilters_step (sec pfx f rest : Bytes) (off fuel : Nat)
       if f.length > 64 * 1024 * 1024 then none
       else match loadFilters sec fuel (pfx.length + 12 + f.length) with
         | none => none
-        | some r => some (filterOf off f :: r) := by
+        | some r => some (if filterOk f then filterOf off f :: r else r) := by
   have hl : sec.length = pfx.length + 12 + f.length + rest.length := by
     rw [hsec]; simp [bloomRec]; omega
   have e1 : sec = pfx ++ le 8 off ++ (le 4 f.length ++ f ++ rest) := by rw [hsec]; simp [bloomRec]
@@ -261,7 +267,7 @@ theorem loadFilters_step (sec pfx f rest : Bytes) (off fuel : Nat)
 
 theorem loadFilters_recs (sec : Bytes) : ∀ (recs : List (Nat × Bytes)) (pfx : Bytes) (fuel : Nat),
     sec = pfx ++ bloomRecs recs → recs.length < fuel →
-    (∀ r ∈ recs, r.1 < 2 ^ 64 ∧ 0 < r.2.length ∧ r.2.length ≤ 64 * 1024 * 1024) →
+    (∀ r ∈ recs, r.1 < 2 ^ 64 ∧ 0 < r.2.length ∧ r.2.length ≤ 64 * 1024 * 1024 ∧ filterOk r.2 = true) →
     loadFilters sec fuel pfx.length = some (recs.map (fun r => filterOf r.1 r.2)) := by
   intro recs
   induction recs with
@@ -275,8 +281,8 @@ theorem loadFilters_recs (sec : Bytes) : ∀ (recs : List (Nat × Bytes)) (pfx :
     intro pfx fuel hsec hfuel hr
     obtain ⟨f, rfl⟩ : ∃ f, fuel = f + 1 := ⟨fuel - 1, by simp at hfuel; omega⟩
     obtain ⟨off, fb⟩ := r
-    obtain ⟨h1, h2, h3⟩ := hr (off, fb) (by simp)
-    simp only at h1 h2 h3
+    obtain ⟨h1, h2, h3, h4⟩ := hr (off, fb) (by simp)
+    simp only at h1 h2 h3 h4
     have hsec' : sec = pfx ++ bloomRec (off, fb) ++ bloomRecs recs := by
       rw [hsec]; simp [bloomRecs]
     rw [loadFilters_step sec pfx fb (bloomRecs recs) off f hsec' h1 h2 (by omega), if_neg (by omega)]
@@ -285,7 +291,7 @@ theorem loadFilters_recs (sec : Bytes) : ∀ (recs : List (Nat × Bytes)) (pfx :
     have hl : (pfx ++ bloomRec (off, fb)).length = pfx.length + 12 + fb.length := by
       simp [bloomRec]; omega
     rw [hl] at this
-    rw [this]
+    rw [this, h4]
     rfl
 
 /-! ### block cutting and layout -/
@@ -491,6 +497,54 @@ theorem bloomBytes_length (p : Params) (fnv : Bytes → Nat) (keys : List Bytes)
     (bloomBytes p fnv keys).length = 32 + (p.bloomBits + 7) / 8 := by
   simp [bloomBytes, bloomBits_size]; omega
 
+theorem bloomBytes_eq (p : Params) (fnv : Bytes → Nat) (keys : List Bytes) :
+    bloomBytes p fnv keys =
+      le 8 p.bloomBits ++ (le 8 p.bloomK ++ (le 8 p.bloomN ++ (le 8 keys.length ++
+        (keys.foldl (fun a k => (bloomPositions p fnv k).foldl setBit a)
+          (Array.replicate ((p.bloomBits + 7) / 8) (0 : UInt8))).toList))) := by
+  simp [bloomBytes]
+
+/-- the header fields and the bit array a reader sees in a written filter. -/
+theorem bloomBytes_hdr (p : Params) (hp : PWF p) (fnv : Bytes → Nat) (keys : List Bytes) :
+    unle (slice (bloomBytes p fnv keys) 0 8) = p.bloomBits ∧ unle (slice (bloomBytes p fnv keys) 8 8) = p.bloomK ∧
+    (bloomBytes p fnv keys).drop 32 =
+      (keys.foldl (fun a k => (bloomPositions p fnv k).foldl setBit a)
+        (Array.replicate ((p.bloomBits + 7) / 8) (0 : UInt8))).toList := by
+  obtain ⟨_, _, _, _, _, _, hb, hk, _, _⟩ := hp
+  rw [bloomBytes_eq]
+  generalize (keys.foldl (fun a k => (bloomPositions p fnv k).foldl setBit a)
+          (Array.replicate ((p.bloomBits + 7) / 8) (0 : UInt8))).toList = bl
+  have s0 : slice (le 8 p.bloomBits ++ (le 8 p.bloomK ++ (le 8 p.bloomN ++ (le 8 keys.length ++ bl)))) 0 8 =
+      le 8 p.bloomBits := slice_le_zero _ _ _
+  have s8 : slice (le 8 p.bloomBits ++ (le 8 p.bloomK ++ (le 8 p.bloomN ++ (le 8 keys.length ++ bl)))) 8 8 =
+      le 8 p.bloomK := by
+    rw [slice_le_skip _ _ _ _ _ (Nat.le_refl _)]; exact slice_le_zero _ _ _
+  have d32 : (le 8 p.bloomBits ++ (le 8 p.bloomK ++ (le 8 p.bloomN ++ (le 8 keys.length ++ bl)))).drop 32 = bl := by
+    have : le 8 p.bloomBits ++ (le 8 p.bloomK ++ (le 8 p.bloomN ++ (le 8 keys.length ++ bl))) =
+        (le 8 p.bloomBits ++ le 8 p.bloomK ++ le 8 p.bloomN ++ le 8 keys.length) ++ bl := by simp
+    rw [this]; exact List.drop_left' (by simp)
+  have u0 : unle (le 8 p.bloomBits) = p.bloomBits := unle_le 8 _ (by omega)
+  have u8 : unle (le 8 p.bloomK) = p.bloomK := unle_le 8 _ (by omega)
+  rw [s0, s8, d32, u0, u8]
+  exact ⟨rfl, rfl, rfl⟩
+
+theorem filterOf_bloomBytes (p : Params) (hp : PWF p) (fnv : Bytes → Nat) (keys : List Bytes) (off : Nat) :
+    filterOf off (bloomBytes p fnv keys) =
+      { blockOff := off, bits := p.bloomBits, k := p.bloomK,
+        data := (keys.foldl (fun a k => (bloomPositions p fnv k).foldl setBit a)
+          (Array.replicate ((p.bloomBits + 7) / 8) (0 : UInt8))).toList } := by
+  obtain ⟨h1, h2, h3⟩ := bloomBytes_hdr p hp fnv keys
+  simp only [filterOf, h1, h2, h3]
+
+/-- a written filter passes LoadBloomFilter's acceptance test as soon as it has at least one hash function and not
+    more hash functions than bits (its header describes its data by construction). -/
+theorem filterOk_bloomBytes (p : Params) (hp : PWF p) (hk0 : 0 < p.bloomK) (hkb : p.bloomK ≤ p.bloomBits)
+    (fnv : Bytes → Nat) (keys : List Bytes) : filterOk (bloomBytes p fnv keys) = true := by
+  obtain ⟨h1, h2, _⟩ := bloomBytes_hdr p hp fnv keys
+  have hl := bloomBytes_length p fnv keys
+  simp only [filterOk, h1, h2, hl, decide_eq_true_eq]
+  omega
+
 /-! ### OpenReader on a written table -/
 
 def filtersOf (p : Params) (fnv : Bytes → Nat) (bloom : Bool) (blocks : List LBlock) : List Filter :=
@@ -511,8 +565,10 @@ theorem tableOf_length (p : Params) (hash fnv : Bytes → Nat) (ts : Nat) (bloom
       (dataOf blocks).length + (bloomOf p fnv bloom blocks).length + (indexOf p hash blocks).length + 68 := by
   simp only [tableOf, List.length_append, footerBytes_length]
 
-/-- the condition under which `loadFilters` accepts the written filters (validateBloomFilterSize: ≤ 64 MiB). -/
-def BloomFits (p : Params) (bloom : Bool) : Prop := bloom = true → 32 + (p.bloomBits + 7) / 8 ≤ 64 * 1024 * 1024
+/-- the condition under which `loadFilters` accepts and keeps the written filters (validateBloomFilterSize: ≤ 64 MiB;
+    LoadBloomFilter: at least one hash function, not more hash functions than bits). -/
+def BloomFits (p : Params) (bloom : Bool) : Prop :=
+  bloom = true → 32 + (p.bloomBits + 7) / 8 ≤ 64 * 1024 * 1024 ∧ 0 < p.bloomK ∧ p.bloomK ≤ p.bloomBits
 
 theorem openTable_tableOf (p : Params) (hp : PWF p) (hash fnv : Bytes → Nat) (hh : HOK hash) (ts : Nat)
     (hts : ts < 2 ^ 64) (bloom : Bool) (hfit : BloomFits p bloom) (bl : List (List BEntry)) (n : Nat)
@@ -567,7 +623,7 @@ theorem openTable_tableOf (p : Params) (hp : PWF p) (hash fnv : Bytes → Nat) (
         obtain ⟨b, hb, rfl⟩ := List.mem_map.mp hr
         simp only [filterRec, bloomBytes_length]
         have := hoffs b hb
-        omega
+        exact ⟨by omega, by omega, by omega, filterOk_bloomBytes p hp hfit'.2.1 hfit'.2.2 fnv _⟩
   have hopen := openTable_shape p hp hash hh (dataOf blocks) (bloomOf p fnv bloom blocks) (indexOf p hash blocks)
     ts n ir (filtersOf p fnv bloom blocks) hts hn0 hn (by omega) (by omega) hsz hir hB
   unfold tableOf readerOf
